@@ -92,7 +92,15 @@ def uv_lookup_rules(cx):
               where=b.file, found=cx.arg(pj[0], 2) if pj else None)
         # None is returned only when the interior weights cannot be computed: the lookup never rejects a query by where its projection landed
         nones = [(s_, d_) for s_, d_ in cx.rets(b) if not (d_[0] == 'agg' and d_[1].endswith('Option::Some'))]
-        okn = all(d_[0] == 'residual' and find('(call *interior_barycentric _ _ _ _)', d_) is not None for s_, d_ in nones) and \
+        def _via_interior(d_):
+            if d_[0] != 'residual':
+                return False
+            if find('(call *interior_barycentric _ _ _ _)', d_) is not None:
+                return True
+            eo = find('(call Option::or_else (call TrianglePointLocation::barycentric_coordinates _) $cl)', d_)      # `bc.or_else(|| interior_barycentric(..))?`
+            cb_ = cx.closure_body(eo[1]['cl'][1]) if eo is not None and eo[1]['cl'][0] == 'closure' else None
+            return cb_ is not None and len(cb_.calls('*interior_barycentric')) == 1
+        okn = all(_via_interior(d_) for s_, d_ in nones) and \
             all(not any(find('(field is_inside _)', a_) is not None for a_, p_ in cx.guards(b, s_.bb)) for s_, d_ in cx.rets(b))
         if comb is not None:
             # combinator form: the result is None exactly when the mapped option is - the location's weights or else interior_barycentric's
@@ -183,10 +191,27 @@ def boundary_table_rules(cx):
     if b:
         IB = '(param i_bound)'
         I = f'(itervar (range 0 (len {IB})))'
-        cx.expect_comp('EXPR', 'boundary_edge_lengths:outgoing', b, cx.retval(b), IB,
-                       f'(call *points::dist (index (param vertices) (index {IB} {I})) (index (param vertices) (index {IB} (rem (add 1 {I}) (len {IB})))))',
-                       'entry k is the length of the boundary edge LEAVING boundary vertex k (to its cyclic successor), one entry per boundary vertex: the target curvatures and the '
-                       'cumulative arc positions pair entry k with vertex k', where=b.file)
+        from vpa import comp as CMPB
+        comps = [c for c in CMPB.comprehensions(cx, b, cx.retval(b)) if c.get('elem') is not None]
+        okb = False
+        if len(comps) == 1 and not comps[0]['conds'] and comps[0]['src'] is not None:
+            c0 = comps[0]
+            # vertex k with vertex (k+1) % n by index ..
+            okb = match(IB, c0['src']) is not None and \
+                match(f'(call *points::dist (index (param vertices) (index {IB} {I})) (index (param vertices) (index {IB} (rem (add 1 {I}) (len {IB})))))', c0['elem']) is not None
+            if not okb:
+                # .. or by pairing the loop with itself shifted by one: i_bound.iter().zip(i_bound.iter().cycle().skip(1))
+                ZS = f'(call Iterator::zip {IB} (call Iterator::skip (call Iterator::cycle {IB}) 1))'
+                IT = f'(index {ZS} (itervar (range 0 (len {ZS}))))'
+                okb = match(ZS, c0['src']) is not None and \
+                    (match(f'(call *points::dist (index (param vertices) (field 0 {IT})) (index (param vertices) (field 1 {IT})))', c0['elem']) is not None or
+                     match(f'(call *points::dist (index (param vertices) (field 0 (itervar {ZS}))) (index (param vertices) (field 1 (itervar {ZS}))))', c0['elem']) is not None or
+                     match(f'(call *points::dist (index (param vertices) (index {IB} (itervar (range 0 (len {ZS}))))) '
+                           f'(index (param vertices) (index (call Iterator::skip (call Iterator::cycle {IB}) 1) (itervar (range 0 (len {ZS}))))))', c0['elem']) is not None)
+        cx.ob('EXPR', 'boundary_edge_lengths:outgoing', okb,
+              'entry k is the length of the boundary edge LEAVING boundary vertex k (to its cyclic successor), one entry per boundary vertex: the target curvatures and the '
+              'cumulative arc positions pair entry k with vertex k', where=b.file,
+              found='; '.join(f"src={show(c['src'])[:120] if c['src'] else None} elem={show(c['elem'])[:300]}" for c in comps))
     b = cx.fn(f'{CF_}::calc_extend_h')
     if b:
         EN = '(itervar (call Iterator::enumerate (param i_bound)))'
